@@ -18,6 +18,7 @@ def setup():
         build(["e1"], features=["e1/priv_access"])
     except MachineryError:
         build(["e1"])
+    build(["e2"])
     for tool in ("llvm-mc-14",):
         r = subprocess.run(["which", tool], capture_output=True)
         if r.returncode != 0:
@@ -215,7 +216,7 @@ def run_times(prop, runs, conform=True):
     return merged, validated, mismatches
 
 
-def times_family(prop, tier, runs, assumptions_extra, take_props=None):
+def times_family(prop, tier, runs, assumptions_extra, take_props=None, extra=None):
     t0 = time.time()
     mi = mount()
     build(["e3m", "e3r"])
@@ -252,6 +253,19 @@ def times_family(prop, tier, runs, assumptions_extra, take_props=None):
         raise MachineryError("vacuous exploration: fewer than two distinct observation logs")
     if mismatches and not viols:
         raise MachineryError(f"conformance: {len(mismatches)} histories observed differently on the mounted and the unmodified crate, e.g. {mismatches[0]}")
+    if extra:
+        ev, ecov, eass = extra(tier, mi)
+        viols += ev
+        for k, v in ecov.items():
+            if k in ("states", "transitions", "traces_validated_against_impl") and isinstance(v, int):
+                cov[k] = cov.get(k, 0) + v
+            elif k == "samples":
+                cov["samples"] = cov["samples"][:3] + v[:2]
+            elif k == "exhaustive":
+                cov["exhaustive"] = cov["exhaustive"] and v
+            else:
+                cov[k] = v
+        assumptions_extra = assumptions_extra + eass
     return finish(prop, tier, t0, cov, viols, COMMON_ASSUMPTIONS + assumptions_extra, mi)
 
 
@@ -261,14 +275,35 @@ def check_c07(tier):
                         ["a mismatch with the reference model is attributed to C07 when it occurs in a lifetime that follows earlier use of the same fake! source line, to C06 when it occurs in the first lifetime of a fresh process"])
 
 
+def c06_concurrent(tier, mi):
+    tot, raw, samples, cases = e2_run("c06", tier)
+    viols = e2_viols(raw, "c06")
+    if tot["distinct_outcomes_max"] < 1 and not viols:
+        raise MachineryError("vacuous concurrent exploration")
+    cov = {"states": tot["states"], "transitions": tot["steps"], "traces_validated_against_impl": tot["schedules"],
+           "schedules": tot["schedules"], "concurrent_scenarios": cases, "samples": samples[:2],
+           "concurrent_bound": {"callers": "1-3 (thorough 4) with every split of k <= N+2 calls, every schedule or preemption bound 3; 8 and 16 identical single-call threads with symmetry reduction at preemption bound 2", "preemptions_max_used": tot["max_preemptions"], "capped_scenarios": tot["capped_cases"]},
+           "exhaustive": tot["capped_cases"] == 0}
+    return viols, cov, E2_ASSUME + ["symmetry reduction (8/16 identical single-call threads): a choice between not-yet-started threads with identical bodies considers the lowest id only; the oracle is a function of the multiset of per-thread observations"]
+
+
 def check_c06(tier):
     runs = times_runs(tier, [0, 1, 2, 3], 7, 9)
-    return times_family("C06", tier, runs, ["sequential part only in this function; the concurrent part is explored by E2"])
+    return times_family("C06", tier, runs, ["a mismatch in the first lifetime of a fresh process is attributed to C06, in a later lifetime to C07"], extra=c06_concurrent)
+
+
+def c05_concurrent(tier, mi):
+    """C04's harness: the combinations in which a holder lets go by panicking."""
+    tot, raw, samples, cases = e2_run("c04", tier)
+    keep = ("guard-acquisition-or-use-panicked", "deadlock", "not-restored-after-all-threads-finished", "process-died-6", "process-died-11", "panic-swallowed", "hang")
+    viols = [v for v in e2_viols(raw, "c04") if v["key"] in keep and any("p" in r for t in v["case"].get("spec", []) for r in t)]
+    cov = {"states": tot["states"], "transitions": tot["steps"], "traces_validated_against_impl": tot["schedules"], "schedules": tot["schedules"], "samples": samples[:2], "exhaustive": tot["capped_cases"] == 0}
+    return viols, cov, E2_ASSUME
 
 
 def check_c05(tier):
     runs = times_runs(tier, [0, 1, 2], 7, 9)
-    return times_family("C05", tier, runs, [])
+    return times_family("C05", tier, runs, [], extra=c05_concurrent)
 
 
 # ---------------------------------------------------------------------------------------------
@@ -474,6 +509,63 @@ def check_c11(tier):
                      "states = allocator scans judged: back-end x page size x target address class x in-page offset x neighbourhood layout (empty, full, full except one free page at each listed offset) x single/double deviations of the kernel's answers (MAP_FAILED, in-window page, far page)")
 
 
+# ---------------------------------------------------------------------------------------------
+# E2, schedule explorer
+
+def e2_run(check, tier):
+    build(["e2"])
+    outs = run_engine_sharded(bin_path("e2"), [check, "--tier", tier], NCPU, timeout=3000)
+    tot = {"schedules": 0, "steps": 0, "states": 0, "blocked_lock_schedules": 0, "capped_cases": 0, "distinct_outcomes_max": 0, "max_preemptions": 0}
+    viols, samples, cases = [], [], 0
+    for o in outs:
+        cases += o["cases"]
+        for k in ("schedules", "steps", "states", "blocked_lock_schedules", "capped_cases"):
+            tot[k] += o["totals"][k]
+        for k in ("distinct_outcomes_max", "max_preemptions"):
+            tot[k] = max(tot[k], o["totals"][k])
+        viols += o["violations"]
+        samples += o["samples"][:1]
+    return tot, viols, samples, cases
+
+
+def e2_viols(raw, check, keymap=None):
+    out = []
+    for v in raw:
+        if v["key"] == "scheduler-fatal":
+            raise MachineryError(f"{v['what']} (case {json.dumps(v['case'])[:300]})")
+        out.append({"key": v["key"], "what": v["what"] + (" | schedule: " + " ".join(v["labels"][:60]) if v.get("labels") else ""),
+                    "engine": "e2", "args": [check], "case": v["case"]})
+    return out
+
+
+E2_ASSUME = [
+    "scheduled mount: std::sync:: paths of the repository sources resolve to vstd::sync (scheduling-point wrappers around the real std Mutex and atomics; real poisoning, real unwinding on real OS threads); rule R2 match count is in coverage.mount.rules_sched",
+    "interleavings are explored at the granularity of synchronisation operations and OS calls of the crate (sequentially consistent); data the crate touches outside its mutex is code memory, whose protocol is C17's subject",
+    "threads that call a function while another thread patches it without holding a guard are outside the crate's documented contract and not generated",
+]
+
+
+def check_c04(tier):
+    t0 = time.time()
+    mi = mount()
+    tot, raw, samples, cases = e2_run("c04", tier)
+    viols = e2_viols(raw, "c04")
+    if tot["blocked_lock_schedules"] == 0 or tot["distinct_outcomes_max"] < 2:
+        if not viols:
+            raise MachineryError("vacuous exploration: no schedule contained a blocked lock() / fewer than two distinct outcomes")
+    cov = {
+        "states": tot["states"], "transitions": tot["steps"], "schedules": tot["schedules"],
+        "traces_validated_against_impl": tot["schedules"],
+        "samples": samples[:4], "scenarios": cases,
+        "bound": {"threads": "2 (all guard-kind x exit-path assignments, every schedule) and 3 (preemption bound as listed per scenario); 2 threads x 2 rounds", "preemptions_max_used": tot["max_preemptions"], "capped_scenarios": tot["capped_cases"]},
+        "schedules_with_a_blocked_lock": tot["blocked_lock_schedules"],
+        "distinct_outcomes": tot["distinct_outcomes_max"],
+        "exhaustive": tot["capped_cases"] == 0,
+        "explanation": "every schedule is an execution of the real crate code on real OS threads under the controlled scheduler (no model of the crate); states = distinct (step, enabled set, choice) fingerprints, transitions = scheduling steps; traces_validated_against_impl = schedules executed (each one is an implementation run)",
+    }
+    return finish("C04", tier, t0, cov, viols, COMMON_ASSUMPTIONS + E2_ASSUME, mi)
+
+
 CHECKS = {
     "C02": check_c02,
     "C03": check_c03,
@@ -488,6 +580,7 @@ CHECKS = {
     "C11": check_c11,
     "C13": check_c13,
     "C10": check_c10,
+    "C04": check_c04,
 }
 
 
@@ -524,6 +617,20 @@ def replay(pid, path):
         if rc:
             print(f"VIOLATION property={pid} replay={path}")
         return rc
+    if eng == "e2":
+        build(["e2"])
+        r = subprocess.run([bin_path("e2")] + case["args"] + ["--replay", path], capture_output=True, text=True, cwd=WORK, env=env_offline())
+        if r.returncode != 0:
+            print(f"MACHINERY-ERROR replay engine e2 exited {r.returncode}: {r.stderr[-500:]}")
+            return 2
+        o = json.loads(r.stdout.strip().splitlines()[-1])
+        for v in o["violations"][:4]:
+            print(f"  {v['key']}: {v['what']}")
+        if o["violations"]:
+            print(f"VIOLATION property={pid} replay={path}")
+            return 1
+        print("[vcheck] replay: no violation")
+        return 0
     if eng == "e1":
         try:
             build(["e1"], features=["e1/priv_access"])
